@@ -254,7 +254,10 @@ impl<'a> Import<'a, &'a str, PathBuf> {
         if !rel.is_relative() {
             Err("non-relative path")?
         }
-        rel.set_extension(ext);
+        // add the default extension only if no extension has been given
+        if rel.extension().is_none() {
+            rel.set_extension(ext);
+        }
 
         #[cfg(target_os = "windows")]
         let home = "USERPROFILE";
